@@ -46,6 +46,25 @@ fn main() {
             }
         }
     }
+    if args[0] == "collide" {
+        // diagnostic: time the collision searches
+        let m = verif_core::keymodel::KeyModel::extract().expect("key model");
+        let t = std::time::Instant::now();
+        let pairs = verif_core::collide::kind_collision_pairs(&m, 8);
+        println!("kind-collision pairs: {} in {:.1}s", pairs.len(), t.elapsed().as_secs_f64());
+        for (a, b) in pairs.iter().take(3) {
+            let (ba, bb) = (verif_core::bridge::build(a).unwrap(), verif_core::bridge::build(b).unwrap());
+            println!("  {:#} | {:#} | hashes {:016x} {:016x} eq={} same_position={}", ba, bb, ba.hash(), bb.hash(), ba == bb, ba.same_position(&bb));
+        }
+        let t = std::time::Instant::now();
+        let zs = verif_core::collide::boards_with_hash(&m, 0, 4);
+        println!("boards with hash 0: {} in {:.1}s", zs.len(), t.elapsed().as_secs_f64());
+        for z in zs.iter().take(3) {
+            let b = verif_core::bridge::build(z).unwrap();
+            println!("  {:#} hash {:016x}", b, b.hash());
+        }
+        exit(0);
+    }
     if args.len() < 2 {
         usage();
     }
